@@ -205,43 +205,37 @@ pub fn c17_huffman_build_total_small_tables() {
 
 // @prop C17
 // @tier experimental
-// @note does not finish (4 min cap, twice): the symbolic value fields lie inside the bit reader's 8-byte read-ahead of the count fields, so CBMC no longer folds the (concrete) counts and the value-collecting loop is unwound to the global bound
+// @note three attempts, none finishes within 4 minutes: (1) value fields symbolic, (2) count selectors enumerated as constants but value fields symbolic - the symbolic bytes lie inside the bit reader's 8-byte read-ahead, the counts are no longer folded and the value-collecting loop is unwound to the global bound -, (3) only the first byte symbolic with a per-loop bound of 4 on the collecting loop: Bitstream::refill_slow is then unwound 2300+ times. Seeded change M38 (validity check weakened) is therefore missed by the quick tier
+// @unwindset Range<u32> as std::iter::Iterator>::try_fold 0 4
 // @unit jxl_jbr::huffman::{HuffmanCode::parse,HuffmanCode::build,BuiltHuffmanTable::lookup}
-// @sym one Huffman code record in 8 bytes: the flag bits, the value fields (selectors and payload) and the looked-up symbol symbolic; the count selectors of counts[0] and counts[1] enumerated as constants over (0,0) (1,0) (0,1) (1,1), counts[2..] = 0
-// @bound records with at most 2 values; the four count layouts are concrete (a symbolic number of values makes the collecting loop unbounded for CBMC: 5 min without a verdict)
-// @assume none beyond the layouts
-// @oblig a hostile record is either rejected by the parser or its table builds and looks up without panic; accepted records have counts[0] == 0 and as many values as the counts add up to, at least one (finding F08: a code of length 0 shifted by 64; an empty record underflowed `values.len() - 1` in the DHT writer; a sentinel-only record indexed an empty vector)
+// @sym one Huffman code record: the four flag bits and the selectors of counts[0] and counts[1] (each 0 or 1) symbolic, counts[2..] = 0, value fields zero; the looked-up symbol symbolic
+// @bound records with at most 2 values (the value-collecting loop is bounded to 3 iterations by a per-loop unwinding bound, guarded by the unwinding assertion); value fields concrete (symbolic ones inside the bit reader's read-ahead stop CBMC from folding the counts: two runs without a verdict, see DESIGN 8.9)
+// @assume count selectors in {0,1}
+// @oblig the parser's side of the predicate c17_huffman_build_total_small_tables assumes: a record is accepted iff counts[0] == 0 and the counts are not all zero; an accepted record has as many values as its counts add up to; its table builds and looks up without panic (finding F08)
 #[kani::proof]
 #[kani::unwind(258)]
 pub fn c17_huffman_record_parse_then_build_total() {
-    fn case(sel0: u8, sel1: u8) -> u8 {
-        let flags: u8 = kani::any::<u8>() & 0x0f;
-        let hi: u8 = kani::any::<u8>() & 0xc0;
-        let (v5, v6, v7): (u8, u8, u8) = (kani::any(), kani::any(), kani::any());
-        // LSB first: is_ac(1) id(2) is_last(1), then 17 two-bit count selectors (0 -> 0, 1 -> 1)
-        let bytes: [u8; 8] = [flags | sel0 << 4 | sel1 << 6, 0, 0, 0, hi, v5, v6, v7];
-        let q: u8 = kani::any();
-        let mut bs = jxl_bitstream::Bitstream::new(&bytes[..]);
-        match jv::huffman_parse_build_and_lookup(&mut bs, q) {
-            Ok((len, _bits, counts, n)) => {
-                assert!(counts[0] == 0 && counts[1] == sel1);
-                assert!(n >= 1 && n == sel1 as usize);
-                assert!(len == 1);
-                0
-            }
-            Err(true) => 1,
-            Err(false) => 2,
+    let b0: u8 = kani::any();
+    kani::assume(b0 & 0b1010_0000 == 0);
+    let (sel0, sel1) = ((b0 >> 4) & 1, (b0 >> 6) & 1);
+    let bytes: [u8; 16] = [b0, 0, 0, 0, 0, 0, 0, 0, 0, 0, 0, 0, 0, 0, 0, 0];
+    let q: u8 = kani::any();
+    let mut bs = jxl_bitstream::Bitstream::new(&bytes[..]);
+    match jv::huffman_parse_build_and_lookup(&mut bs, q) {
+        Ok(_) => {
+            // a sentinel-only table has no code for any symbol
+            assert!(false);
+        }
+        Err(true) => {
+            assert!(sel0 == 1 || sel1 == 0);
+        }
+        Err(false) => {
+            assert!(sel0 == 0 && sel1 == 1);
         }
     }
-    let r00 = case(0, 0);
-    assert!(r00 == 1); // no values at all: rejected
-    let r10 = case(1, 0);
-    assert!(r10 == 1); // a code of length 0: rejected
-    let r11 = case(1, 1);
-    assert!(r11 == 1);
-    let r01 = case(0, 1);
-    assert!(r01 == 2); // only the sentinel: accepted, no symbol has a code
-    kani::cover!(r01 == 2, "sentinel-only record accepted and built");
+    kani::cover!(sel0 == 1 && sel1 == 1, "zero-length code next to a real one: rejected");
+    kani::cover!(sel0 == 0 && sel1 == 1, "sentinel-only record accepted and built");
+    kani::cover!(sel0 == 0 && sel1 == 0, "empty record rejected");
 }
 
 // @prop C17 C01
